@@ -912,6 +912,11 @@ pub fn gen_history(rng: &Rng, mix: OpMix, len: usize, n_items: usize, tail: bool
 // ---------------------------------------------------------------------------
 
 pub fn shrink_read(scn: &ReadScn) -> Vec<ReadScn> {
+    // every candidate is a copy of the scenario: for inputs of several MiB the candidate list would
+    // take gigabytes (and an execution seconds), so such a scenario is reported as it is
+    if scn.input.len() > 2_000_000 {
+        return vec![];
+    }
     let mut out: Vec<ReadScn> = vec![];
     let mut push = |s: ReadScn| {
         if &s != scn {
